@@ -815,6 +815,9 @@ func c19S2(l *core.Ledger, r *rt) {
 			l.Bad("C19-S2", key+"/args", c.Pos(), fmt.Sprintf("key called with arguments other than (nodes[i], nodes[j]) or (nodes[j], nodes[i]): %s, %s", sx.OriginsString(a0), sx.OriginsString(a1)))
 		}
 	})
+	if len(calls) == 2 && c19S2AllKeysForm(l, fn, ms, key, calls[0].c, calls[0].fwd, calls[0].idx, calls[1].c, calls[1].fwd, calls[1].idx) {
+		return
+	}
 	if len(calls) < 3 {
 		l.Bad("C19-S2", key+"/shape", fn.Pos(), fmt.Sprintf("expected key calls less(p,q), less(q,p) in the loop and a final less(p,q); found %d key calls", len(calls)))
 		return
@@ -1007,6 +1010,125 @@ func c19S2(l *core.Ledger, r *rt) {
 	if okAll {
 		l.OK("C19-S2", key, fn.Pos(), fmt.Sprintf("%d key call sites, %d returns classified", len(calls), nret))
 	}
+}
+
+// c19S2AllKeysForm decides the other spelling of the same combination: one loop
+// over *all* keys in order from key 0 (a range over ms.less, or k = 0,1,... while
+// k < len(ms.less)), returning true on less(p,q) and false on less(q,p), and
+// false after the loop. It agrees with "all but the last, then the last key's
+// less(p,q)": after the last key said neither, less(p,q) is false.
+func c19S2AllKeysForm(l *core.Ledger, fn *ssa.Function, ms *ssa.Parameter, key string, c1 *ssa.Call, fwd1 bool, idx1 ssa.Value, c2 *ssa.Call, fwd2 bool, idx2 ssa.Value) bool {
+	if fwd1 == fwd2 || !sx.InLoop(sx.NodeOf(c1)) || !sx.InLoop(sx.NodeOf(c2)) || idx1 != idx2 {
+		return false
+	}
+	fwd, rev := c1, c2
+	if !fwd1 {
+		fwd, rev = c2, c1
+	}
+	// the index: a phi {0, k+1} bounded by len(ms.less)
+	ph, ok := idx1.(*ssa.Phi)
+	if !ok {
+		// a range over the slice indexes with the range's own induction variable (k+1 of a phi from -1)
+		if b, isB := idx1.(*ssa.BinOp); isB && b.Op == token.ADD {
+			ph, ok = b.X.(*ssa.Phi)
+		}
+		if !ok {
+			return false
+		}
+	}
+	startOK, stepOK := false, false
+	for _, e := range ph.Edges {
+		switch x := e.(type) {
+		case *ssa.Const:
+			if x.Value != nil && (constant.Compare(x.Value, token.EQL, constant.MakeInt64(0)) && ssa.Value(ph) == idx1 || constant.Compare(x.Value, token.EQL, constant.MakeInt64(-1)) && ssa.Value(ph) != idx1) {
+				startOK = true
+			}
+		case *ssa.BinOp:
+			if c, isC := x.Y.(*ssa.Const); isC && x.Op == token.ADD && x.X == ssa.Value(ph) && c.Value != nil && constant.Compare(c.Value, token.EQL, constant.MakeInt64(1)) {
+				stepOK = true
+			}
+		}
+	}
+	boundOK := false
+	sx.AllInstrs(fn, func(_ sx.Node, in ssa.Instruction) {
+		b, isB := in.(*ssa.BinOp)
+		if !isB || b.Op != token.LSS {
+			return
+		}
+		if b.X != idx1 && b.X != ssa.Value(ph) {
+			if inc, isInc := b.X.(*ssa.BinOp); !isInc || inc.X != ssa.Value(ph) {
+				return
+			}
+		}
+		if call, isCall := b.Y.(*ssa.Call); isCall {
+			if bi, isBI := call.Call.Value.(*ssa.Builtin); isBI && bi.Name() == "len" && sx.All(sx.Origins(call.Call.Args[0]), sx.IsFieldNamed("less", sx.IsParam(ms))) {
+				boundOK = true
+			}
+		}
+	})
+	if !startOK || !stepOK || !boundOK {
+		return false
+	}
+	// returns: true under fwd's true edge, false under rev's true edge, false everywhere else - and
+	// the forward comparison is asked first
+	okRet := true
+	nret := 0
+	sx.AllInstrs(fn, func(n sx.Node, in ssa.Instruction) {
+		ret, isRet := in.(*ssa.Return)
+		if !isRet {
+			return
+		}
+		nret++
+		k, isK := ret.Results[0].(*ssa.Const)
+		if !isK || k.Value == nil {
+			okRet = false
+			return
+		}
+		underFwd, underRev := false, false
+		for _, ifi := range ifsOn(fn, fwd) {
+			if sx.EdgeDominates(fn, edgeWhere(ifi, true), n) {
+				underFwd = true
+			}
+		}
+		for _, ifi := range ifsOn(fn, rev) {
+			if sx.EdgeDominates(fn, edgeWhere(ifi, true), n) {
+				underRev = true
+			}
+		}
+		switch {
+		case constant.BoolVal(k.Value):
+			if !underFwd {
+				okRet = false
+			}
+		case underFwd:
+			okRet = false // answers false although p < q under this key
+		}
+		_ = underRev
+	})
+	// rev is asked only after fwd said no
+	revAfterFwd := false
+	for _, ifi := range ifsOn(fn, fwd) {
+		if sx.EdgeDominates(fn, edgeWhere(ifi, false), sx.NodeOf(rev)) {
+			revAfterFwd = true
+		}
+	}
+	// and a "not less, not greater" verdict moves on to the next key: from rev's false edge the loop continues
+	if !okRet || !revAfterFwd || nret < 2 {
+		return false
+	}
+	// on rev's true edge the answer is false at once (not "continue with the next key")
+	decided := false
+	for _, ifi := range ifsOn(fn, rev) {
+		e := edgeWhere(ifi, true)
+		if _, again := sx.Reach(sx.Node{B: e.To, I: -1}, func(x sx.Node) bool { return x.Instr() == ssa.Instruction(fwd) }, sx.Query{}); !again {
+			decided = true
+		}
+	}
+	if !decided {
+		return false
+	}
+	l.OK("C19-S2", key, fn.Pos(), "all keys in one loop from key 0: true on less(p,q), false on less(q,p), false when every key says equal")
+	return true
 }
 
 // ---------------------------------------------------------------- S3
